@@ -50,6 +50,7 @@ class Run:
         self.with_events = events
         self.keep = keep
         self.dedup_trust = dedup_trust
+        self.threaded = os.environ.get("VERIF_THREADED", "") == "1"      # deliveries on fresh worker threads
         self.wf_id = "W-" + prog["name"]
         self._dedup_seen = False
         self.handled = 0
@@ -215,6 +216,31 @@ class Run:
 
     # -- steps ---------------------------------------------------------------------------------
     def deliver(self, qid: int | None = None, ack: bool = True, lookup_fault: bool = False) -> bool:
+        """One delivery.  threaded: on a FRESH worker thread (own thread-local connections, closed when it ends), which is
+        what a pool of queue workers whose connections are recycled does: nothing a handler did may depend on a later
+        statement of the same connection to become durable.  The harness waits for the thread (still one worker)."""
+        if not getattr(self, "threaded", False):
+            return self._deliver(qid, ack, lookup_fault)
+        import threading
+
+        box: dict = {}
+
+        def body():
+            try:
+                box["r"] = self._deliver(qid, ack, lookup_fault)
+            except BaseException as e:  # noqa: BLE001  (VerifCrash is a BaseException)
+                box["e"] = e
+            finally:
+                core.close_thread_connections()
+
+        th = threading.Thread(target=body, name="verif-worker")
+        th.start()
+        th.join()
+        if "e" in box:
+            raise box["e"]
+        return box["r"]
+
+    def _deliver(self, qid: int | None = None, ack: bool = True, lookup_fault: bool = False) -> bool:
         """poll_one + _handle_message + ack (or withheld ack / reschedule on failure)."""
         self.lookup_fault = lookup_fault
         self.force_row = qid
@@ -515,6 +541,8 @@ def run_fifo(prog: dict, crash_at: int | None = None, sweeps_after_crash: int = 
     late_expire: after the restart the recovery sweep and its messages run BEFORE the lock of the
     interrupted message lapses (a restart is usually faster than the 60 s lock)."""
     run = Run(prog, tag)
+    if late_expire:         # these runs also use a fresh worker thread per delivery (connections recycled)
+        run.threaded = True
     try:
         run.start()
         if crash_at is not None:
